@@ -13,7 +13,7 @@ from vmon.libutil import monitored
 
 LEVEL = "exploration"
 SHARDS = {"quick": 8, "thorough": 16}
-MUST = ["read_as_int.evaluations", "read_as_bytes.evaluations", "insitu.reads", "wide.reads", "deep.reads", "indomain.boundary_reads", "stateful.reads"]
+MUST = ["read_as_int.evaluations", "read_as_bytes.evaluations", "insitu.reads", "wide.reads", "deep.reads", "debug_logging.reads", "after_overlong.reads", "indomain.boundary_reads", "stateful.reads"]
 RULE = ("every read_as_int/read_as_bytes/_extract_bits call made by the workload is checked by a postcondition "
         "against int(bitstring[p:p+n],2); workload = all (p,n) with p+n<=48 over 24 structured 6-byte buffers "
         "(exhaustive), all 64 (p%8,n%8) classes at widths up to 4096 bytes, seeded random reads, sequential "
@@ -91,6 +91,55 @@ def run(ctx):
                     getattr(r, meth)(n)
                     ctx.count("evaluations")
 
+    # ---- 2a'. the same alignment classes with DEBUG logging switched on for the library's loggers (the CLI's --verbose does that):
+    #           what a read returns and where it leaves the cursor does not depend on the log level --------------------------------
+    import logging
+    lg = logging.getLogger("space_packet_parser")
+    old_level, old_prop = lg.level, lg.propagate
+    lg.setLevel(logging.DEBUG)
+    lg.propagate = False
+    lg.addHandler(logging.NullHandler())
+    try:
+        for pm in range(8):
+            for nm in range(8):
+                for wbytes in (0, 1, 2, 8, 9, 100):
+                    j += 1
+                    if not ctx.mine(j):
+                        continue
+                    n = wbytes * 8 + nm
+                    if n == 0:
+                        continue
+                    total = wbytes + 4
+                    buf = bytes(rng.getrandbits(8) for _ in range(total))
+                    for meth in ("read_as_int", "read_as_bytes"):
+                        r = RPD(buf)
+                        r.pos = 8 + pm
+                        getattr(r, meth)(n)            # judged by the armed postcondition (value and cursor delta)
+                        ctx.count("evaluations")
+                        ctx.count("debug_logging.reads")
+    finally:
+        lg.setLevel(old_level)
+        lg.propagate = old_prop
+    # ---- 2a''. a read that does NOT fit (over-long, on some other buffer) must not spoil later reads of the same shape
+    #            (cursor % 8, width) anywhere in the process ----------------------------------------------------------------------
+    for off in range(8):
+        for n in (3, 7, 9, 12, 13, 17, 31, 33, 63, 65, 100):
+            j += 1
+            if not ctx.mine(j):
+                continue
+            need = (off + n + 7) // 8
+            for meth in ("read_as_int", "read_as_bytes"):
+                short = RPD(bytes(rng.getrandbits(8) for _ in range(max(0, need - 1))))
+                short.pos = off
+                monitored(getattr(short, meth), n)            # out of C03's domain: whatever it does is not judged
+                ok_buf = RPD(bytes(rng.getrandbits(8) for _ in range(need + 1)))
+                ok_buf.pos = off
+                getattr(ok_buf, meth)(n)                      # in-domain: judged by the postcondition
+                ok2 = RPD(bytes(rng.getrandbits(8) for _ in range(need + 9)))
+                ok2.pos = 64 + off
+                getattr(ok2, meth)(n)
+                ctx.count("evaluations", 2)
+                ctx.count("after_overlong.reads", 2)
     # ---- 2b. every in-domain read must RETURN (an exception on p+n <= 8*len is a violation): boundary shapes -----------------
     for ln in (0, 1, 2, 6):
         buf = bytes(rng.getrandbits(8) for _ in range(ln))
